@@ -226,7 +226,8 @@ impl Literal {
                 false
             }
             (Literal::Range(min, max, num_ty), Type::Array(elem_ty, size)) => {
-                elem_ty.as_ref() == &Type::Unsigned(*num_ty) && max - min == *size as u64
+                elem_ty.as_ref() == &Type::Unsigned(*num_ty)
+                    && max.checked_sub(*min) == Some(*size as u64)
             }
             _ => false,
         }
